@@ -10,7 +10,7 @@ VARIABLES tid, l
 tvars == <<vars, tid, l>>
 TL == TraceLines[tid].ev
 TConfigs == {}
-TAllDev == {"staletransition", "delaysurvives", "zeroweightcrash", "qeargscrash"}
+TAllDev == {"staletransition", "zeroweightcrash", "qeargscrash"}
 TInit == /\ tid \in 1..Len(TraceLines) /\ l = 1 /\ cfg = TraceLines[tid].cfg
          /\ mode = FALSE /\ st = 0 /\ now = 0 /\ pend = <<>> /\ rcur = 0 /\ rsent = {} /\ ridx = 0
          /\ waiting = {} /\ nqe = 0 /\ qn = 0 /\ doneset = {} /\ fires = <<>> /\ out = <<>> /\ act = [op |-> "init"]
